@@ -9,6 +9,9 @@
     every row is shifted by d and nothing else changes. *)
 From Spowtd Require Import Model.ClassifyEpochs Model.DepthView Proofs.ShiftSpec Proofs.RebaseSpec
   Proofs.DepthViewSpec.
+From Spowtd Require Import Model.Load Model.ClassifyCommand Model.LoadText Proofs.TimeZoneSpec
+  Proofs.LoadClassifyLink Proofs.LoadShiftSpec.
+From Coq Require String.
 Close Scope Q_scope.
 
 Theorem C07_classification_shift_equivariant : forall d ep step thr_s thr_j rain zeta sched r,
@@ -38,3 +41,99 @@ Example C07_example :
             /\ storm_rows r = [(2200, 3400)]%Z /\ rise_rows r = [(2200, 3400)]%Z
             /\ interstorm_rows r = [(4600, 5800)]%Z.
 Proof. eexists. vm_compute. repeat split; reflexivity. Qed.
+
+(** ** load
+
+    Adding the same integer d (any d, not only a multiple of the step) to the
+    epoch of every row of the three input series commutes with the model of
+    `spowtd load`: the same refusal (same error kind), or every stored epoch
+    (grid instants, from/thru of the rainfall and ET rows, water-level epochs,
+    staging tables) moved by d with the step, the zone name, the data-interval
+    labels and every value - the interpolated water levels included - EQUAL
+    (Leibniz equality of the rationals, not only Qeq). *)
+Theorem C07_load_shift_equivariant : forall d pop tz rain et wl,
+  load_model pop tz (shift_series d rain) (shift_series d et) (shift_series d wl)
+  = map_res (shift_loaded d) (load_model pop tz rain et wl).
+Proof. exact load_shift. Qed.
+Print Assumptions C07_load_shift_equivariant.
+
+(** The stretches classify reads from the shifted load are the shifted
+    stretches ([fr], [fz]: how a stored REAL is read back, arbitrary) ... *)
+Theorem C07_stretches_of_shifted_load : forall fr fz d L,
+  stretches_of_load fr fz (shift_loaded d L) = map (shift_stretch d) (stretches_of_load fr fz L).
+Proof. exact stretches_of_load_shift. Qed.
+Print Assumptions C07_stretches_of_shifted_load.
+
+(** ... hence load followed by the classify command is shift equivariant end
+    to end in the model: every table of load and of classify is the shifted one. *)
+Theorem C07_load_then_classify_shift_equivariant :
+  forall fr fz d pop tz rain et wl thr_s thr_j scheds L c,
+  load_then_classify fr fz pop tz rain et wl thr_s thr_j scheds = Ok (L, c) ->
+  load_then_classify fr fz pop tz (shift_series d rain) (shift_series d et) (shift_series d wl)
+    thr_s thr_j scheds = Ok (shift_loaded d L, shift_command d c).
+Proof. exact load_then_classify_shift. Qed.
+Print Assumptions C07_load_then_classify_shift_equivariant.
+
+(** A refused input stays refused (same kind when it is load that refuses, by
+    [C07_load_shift_equivariant]; the kind of a refusal of classify is not
+    covered). *)
+Theorem C07_load_then_classify_shift_refusal :
+  forall fr fz d pop tz rain et wl thr_s thr_j scheds e,
+  load_then_classify fr fz pop tz rain et wl thr_s thr_j scheds = Err e ->
+  exists e', load_then_classify fr fz pop tz (shift_series d rain) (shift_series d et)
+               (shift_series d wl) thr_s thr_j scheds = Err e'.
+Proof. exact load_then_classify_shift_refusal. Qed.
+Print Assumptions C07_load_then_classify_shift_refusal.
+
+(** The zone-change half, for load on timestamp texts: declaring the same
+    files in the fixed-offset zone off2 instead of off1 (C11: every text is
+    stored as clock seconds - offset) is the shift by off1 - off2; only the
+    recorded zone name differs. *)
+Theorem C07_load_fixed_zone_change : forall off1 dst1 off2 dst2 pop tz1 tz2 rain et wl,
+  load_text_model pop tz2 (fixed_zone off2 dst2) rain et wl
+  = map_res (fun L => with_tz tz2 (shift_loaded (off1 - off2)%Z L))
+      (load_text_model pop tz1 (fixed_zone off1 dst1) rain et wl).
+Proof. exact load_text_zone_change. Qed.
+Print Assumptions C07_load_fixed_zone_change.
+
+(** Non-vacuity: rainfall every 10 s from -10 to 70 (rows out of order), water
+    level every 4 s from -2 to 54 with the samples 22 and 26 missing (a gap
+    18..30 around the grid instant 20; the levels at 0, 10, 40 are interpolated
+    between off-grid samples), everything shifted by 7 s - not a multiple of
+    the step.  And a refusal (one instant twice) that stays the same refusal. *)
+Definition c07_r (t n : Z) (d : positive) : row := (t, Qmake n d).
+Definition c07_rain : list row :=
+  [c07_r (30) (2) 1; c07_r (-10) (9) 1; c07_r (0) (0) 1; c07_r (10) (1) 2; c07_r (20) (0) 1;
+   c07_r (40) (0) 1; c07_r (50) (3) 4; c07_r (60) (7) 1; c07_r (70) (8) 1].
+Definition c07_et : list row :=
+  [c07_r (60) (1) 10; c07_r (0) (1) 10; c07_r (10) (2) 10; c07_r (20) (3) 10;
+   c07_r (30) (4) 10; c07_r (40) (5) 10; c07_r (50) (6) 10].
+Definition c07_wl : list row :=
+  [c07_r (-2) (-100) 1; c07_r (2) (-96) 1; c07_r (6) (-90) 1; c07_r (10) (-91) 1;
+   c07_r (14) (-92) 1; c07_r (18) (-93) 1; c07_r (30) (-80) 1;
+   c07_r (34) (-81) 1; c07_r (38) (-82) 1; c07_r (42) (-85) 1;
+   c07_r (54) (-70) 1; c07_r (46) (-84) 1; c07_r (50) (-83) 1].
+
+Example C07_load_example :
+  match load_model false String.EmptyString c07_rain c07_et c07_wl,
+        load_model false String.EmptyString (shift_series 7 c07_rain) (shift_series 7 c07_et)
+          (shift_series 7 c07_wl) with
+  | Ok L, Ok L' =>
+      ld_step L = 10%Z /\ ld_step L' = 10%Z /\
+      ld_grid L = [(0, Some 1); (10, Some 1); (20, None); (30, Some 2); (40, Some 2);
+                   (50, Some 2); (60, Some 2)]%Z /\
+      ld_grid L' = [(7, Some 1); (17, Some 1); (27, None); (37, Some 2); (47, Some 2);
+                    (57, Some 2); (67, Some 2)]%Z /\
+      map fst (ld_wl L) = [0; 10; 30; 40; 50]%Z /\ map fst (ld_wl L') = [7; 17; 37; 47; 57]%Z /\
+      map snd (ld_wl L') = map snd (ld_wl L) /\
+      map (fun r => Qred (snd r)) (ld_wl L) = [Qmake (-98) 1; Qmake (-91) 1; Qmake (-80) 1; Qmake (-167) 2; Qmake (-83) 1] /\
+      L' = shift_loaded 7 L
+  | _, _ => False
+  end.
+Proof. vm_compute. repeat split; reflexivity. Qed.
+
+Example C07_load_refusal_example :
+  load_model false String.EmptyString (c07_r (0) (1) 1 :: c07_rain) c07_et c07_wl = Err EIntegrity /\
+  load_model false String.EmptyString (shift_series 7 (c07_r (0) (1) 1 :: c07_rain)) (shift_series 7 c07_et)
+    (shift_series 7 c07_wl) = Err EIntegrity.
+Proof. vm_compute. split; reflexivity. Qed.
